@@ -9,6 +9,8 @@
 //! `samples.txt`, `oracle_failures.json`.
 mod oracle;
 mod print;
+#[cfg(feature = "source")]
+mod source;
 mod vary;
 
 use std::fmt::Write as _;
@@ -159,6 +161,9 @@ pub struct Stats {
     pub distinct: std::collections::BTreeSet<u64>,
     pub coq_full_classes: usize,
     pub panics: Vec<String>,
+    pub source_compiled: usize,
+    pub source_equals_golden: usize,
+    pub source_error: String,
 }
 
 fn main() {
@@ -173,7 +178,42 @@ fn main() {
     let mut failures: Vec<oracle::Failure> = vec![];
     let mut samples = String::new();
 
-    let loaded = load_all();
+    #[allow(unused_mut)]
+    let mut loaded = load_all();
+    #[cfg(feature = "source")]
+    if thorough {
+        // the same contracts compiled from their Cairo source by the compiler in /repo now
+        match source::compile_all() {
+            Ok(cs) => {
+                for (path, cc) in cs {
+                    stats.source_compiled += 1;
+                    // informational: does it still equal the checked-in class?
+                    let golden = path.strip_prefix("cairo_level_tests::contracts::").unwrap_or(&path).replace("::", "__");
+                    if let Some(g) = loaded.iter().find(|l| l.name == golden) {
+                        if g.cc == cc {
+                            stats.source_equals_golden += 1;
+                        }
+                    }
+                    match cc.extract_sierra_program(false) {
+                        Ok(ex) => loaded.push(Loaded {
+                            name: format!("src:{}", path),
+                            cc,
+                            program: ex.program,
+                            sv: ex.sierra_version,
+                        }),
+                        Err(e) => failures.push(oracle::Failure {
+                            class: format!("src:{}", path),
+                            variation: "extract".into(),
+                            why: format!("the class the compiler produced does not extract: {e:?}"),
+                            fingerprint: "source-extract".into(),
+                            detail: serde_json::json!({"crate": source::CONTRACTS_CRATE, "contract": path}),
+                        }),
+                    }
+                }
+            }
+            Err(e) => stats.source_error = e,
+        }
+    }
     stats.classes = loaded.len();
     for (k, l) in loaded.iter().enumerate() {
         let shard =
@@ -197,7 +237,7 @@ fn main() {
          \"panic_runs\": {}, \"oracle_checked_results\": {}, \"seg_cases\": {}, \"seg_ok\": {}, \"seg_err\": {}, \
          \"seg_panic\": {}, \"lay_cases\": {}, \"lay_rejected\": {}, \"canon_cases\": {}, \"canon_words\": {}, \
          \"canon_negative_words\": {}, \"ep_cases\": {}, \"ver_cases\": {}, \"coq_full_classes\": {}, \
-         \"distinct_cases\": {}, \"oracle_failures\": {}, \"panic_samples\": {}, \"err_kinds\": {{{}}}, \"variation_kinds\": {{{}}}}}",
+         \"distinct_cases\": {}, \"oracle_failures\": {}, \"panic_samples\": {}, \"source_compiled\": {}, \"source_equals_checked_in_class\": {}, \"source_error\": {:?}, \"err_kinds\": {{{}}}, \"variation_kinds\": {{{}}}}}",
         stats.classes,
         stats.impl_runs,
         stats.ok_runs,
@@ -220,6 +260,9 @@ fn main() {
         stats.distinct.len(),
         failures.len(),
         serde_json::to_string(&stats.panics.iter().take(4).collect::<Vec<_>>()).unwrap(),
+        stats.source_compiled,
+        stats.source_equals_golden,
+        stats.source_error,
         stats.err_kinds.iter().map(|(k, v)| format!("\"{k}\": {v}")).collect::<Vec<_>>().join(", "),
         stats.variation_kinds.iter().map(|(k, v)| format!("\"{k}\": {v}")).collect::<Vec<_>>().join(", "),
     )
